@@ -41,6 +41,7 @@ func setup(env *runner.Env) error {
 	if err := work.Setup(env); err != nil {
 		return err
 	}
+	buildFlips()
 	var err error
 	if dc, err = loadDontCare(env.VerifDir); err != nil {
 		return err
@@ -63,7 +64,7 @@ func init() {
 		Rule: "case = one input byte string x {DecodeBox, DecodeBoxSR, DecodeFile, DecodeFileSR} x {Encode, EncodeSW} (files: box-tree mode when fragmented, plain child loop when progressive), each combination on a fresh decode. " +
 			"Inputs: every corpus seed unmutated (repo testdata files <= 256 KiB and their mdat-shrunk variants, every box of every file cut out by the reference walker, hand-built instances of every registered type no file contains and of every version/flag shape (hdlr name fields that are more than one C string, alone and inside mdia/trak/moov/meta), " +
 			"hand-built whole files (corpus.BuiltFiles: those handler names in progressive and fragmented files; encrypted fragmented files over tenc IV size {16,8,constant} x seig IV size x sample-group boxes in the traf {none, sgpd only, sgpd + foreign sbgp, sbgp+sgpd, sbgp only, unsupported mappings} x senc with/without sub-sample table x saiz/saio), upstream fuzz seeds), " +
-			"then generated inputs (quick 120 000, thorough 3 000 000): 32% 1..3 stacked size-consistent structure-aware mutations (mut.Gentle), 20% single/multi bit flips in a box payload, 18% boundary/random values in aligned fields, 8% N1 largesize headers, 5% N2 non-adjacent trak children, 5% N3 surplus bytes after a leaf, 7% nesting 1..6 deep in typed/generic containers, 5% box sequences; " +
+			"then generated inputs (quick 120 000, thorough 3 000 000): 32% 1..3 stacked size-consistent structure-aware mutations (mut.Gentle), 20% single/multi bit flips in a box payload, 18% boundary/random values in aligned fields, 8% N1 largesize headers, 5% N2 non-adjacent trak children, 5% N3 surplus bytes after a leaf, 7% nesting 1..6 deep in typed/generic containers, 5% box sequences; then every single-bit flip of the payload of every hand-built box seed with at most 96 payload bytes (about 104 000 inputs, both tiers: a field-survival defect on one bit of one box type does not depend on a draw); " +
 			"additionally DecodeAVCDecConfRec / DecodeHEVCDecConfRec / DecodeAV1CodecConfRec -> Encode on every avcC/hvcC/av1C payload found in an accepted input. " +
 			"Oracle: y = E(P(x)) must equal x except in positions covered by /verif/c01_dontcare.json (masks looked up by innermost box type via the reference walker, version byte, payload offset; normalisations N1/N2/N3 recognised on the two walker trees; N3 is never granted to a leaf whose last syntax element extends to the end of the box by definition (hdlr, sdtp, mime, the cue text boxes, emsg, av1C, data, cdat: lost-bytes/<type>/<shape>), to an unmutated corpus seed, or to a senc without sub-sample table cut below 8 + sample_count x Per_Sample_IV_Size of the only track's tenc when no sbgp+sgpd pair in the traf can override it: lost-bytes/senc/iv-table-cut); if y != x then P(y) must succeed, be structurally equal to P(x) (reflective comparison incl. unexported fields, nil == empty; position fields ignored only if a size/order normalisation applied) and E(P(y)) == y. A re-encode error on a decoded structure is a violation. " +
 			"non-trivial = accepted by at least one path and containing at least one registered non-container box other than free/skip; distinct by input hash. evaluations = (path, encoder) round trips performed.",
@@ -73,7 +74,7 @@ func init() {
 			"the reference walker's container table; inputs it cannot tile while the output differs are counted inconclusive (unmappable)",
 		},
 		Setup:    setup,
-		NumCases: func(env *runner.Env) int { return work.NumInputs(env) },
+		NumCases: func(env *runner.Env) int { return work.NumInputs(env) + len(flips) },
 		Run:      run,
 		Replay:   replay,
 		Finalize: finalize,
@@ -90,8 +91,37 @@ type detail struct {
 }
 
 func run(c *runner.Ctx, idx int) {
+	if k := idx - work.NumInputs(c.Env); k >= 0 && k < len(flips) {
+		f := flips[k]
+		in := work.Seeds[f.seed]
+		d := append([]byte(nil), in.Data...)
+		d[f.bit/8] ^= 0x80 >> (f.bit % 8)
+		in.Data, in.Gen, in.Desc = d, "bitflip-all", fmt.Sprintf("bit %d of byte %d flipped", f.bit%8, f.bit/8)
+		c.Count("exhaustive_single_bit_flips", 1)
+		exercise(c, in)
+		return
+	}
 	in := work.InputAt(c.Rand, idx)
 	exercise(c, in)
+}
+
+// flips lists every single-bit flip of the payload of every hand-built box seed of at most 96 payload bytes:
+// the random bit-flip mutants sample this set, a field-survival defect that shows on one bit of one box type
+// must not depend on the draw (two earlier catches moved when the seed list grew).
+type flip struct{ seed, bit int }
+
+var flips []flip
+
+func buildFlips() {
+	flips = flips[:0]
+	for i, s := range work.Seeds {
+		if s.Kind != "built" || len(s.Data) <= 8 || len(s.Data) > 8+96 {
+			continue
+		}
+		for bit := 64; bit < 8*len(s.Data); bit++ {
+			flips = append(flips, flip{i, bit})
+		}
+	}
 }
 
 func replay(c *runner.Ctx, raw json.RawMessage) {
